@@ -28,6 +28,7 @@ CASE_TIMEOUT = int(os.environ.get('VERIF_CASE_TIMEOUT', '60'))
 
 
 _scratch_root = None
+_scratch_owner = None
 
 
 def scratch_root():
@@ -42,6 +43,8 @@ def scratch_root():
             base = '/dev/shm' if os.path.isdir('/dev/shm') and os.access('/dev/shm', os.W_OK) else tempfile.gettempdir()
             _scratch_root = tempfile.mkdtemp(prefix='vfscratch.', dir=base)
             os.environ['VERIF_SCRATCH'] = _scratch_root
+            global _scratch_owner
+            _scratch_owner = os.getpid()
     return _scratch_root
 
 
@@ -54,7 +57,10 @@ def scratch_dir():
 def cleanup_scratch():
     import shutil
     if _scratch_root and os.path.isdir(_scratch_root):
-        shutil.rmtree(_scratch_root, ignore_errors=True)
+        if _scratch_owner == os.getpid():
+            shutil.rmtree(_scratch_root, ignore_errors=True)
+        else:       # a child interpreter only removes its own sub-directory
+            shutil.rmtree(os.path.join(_scratch_root, str(os.getpid())), ignore_errors=True)
 
 
 class HarnessError(Exception):
@@ -578,6 +584,7 @@ def run_property(pid, tier, seed, replay=None):
 
     # 3. triage: known finding vs violation; shrink the new ones
     budget = 300 if tier == 'quick' else 3000
+    budget = getattr(mod, 'SHRINK_BUDGET', {}).get(tier, budget)
     violations = []
     known_hits = []
     for bucket in sorted(merged_fail):
